@@ -35,6 +35,25 @@ def classify(f):
 		return ({'add_assign': 'addsub', 'sub_assign': 'addsub'}.get(tail, tail[:-7]), 'trait')
 	return None
 
+def _unwrapped_to_bound(fu, ci):
+	"""the Option a checked_add / checked_sub returns goes (only) into `unwrap_or(<the bound it saturates at>)`"""
+	d = ci.get('dest')
+	if not d or len(d) != 1:
+		return False
+	tail = norm(ci.get('f') or '').rsplit('::', 1)[-1]
+	for b, c2 in fu.calls():
+		f2 = norm(c2.get('f') or '')
+		if not f2.endswith(('Option::<T>::unwrap_or', 'Option::unwrap_or')) or len(c2['args']) != 2:
+			continue
+		a0, a1 = c2['args']
+		if a0[0] in ('c', 'm') and a0[1] == d and a1[0] == 'k' and isinstance(a1[1], dict):
+			v = a1[1].get('v')
+			if tail.startswith('checked_sub') and v == 0:
+				return True
+			if tail.startswith('checked_add') and isinstance(v, int) and v in (2 ** 8 - 1, 2 ** 16 - 1, 2 ** 32 - 1, 2 ** 64 - 1, 2 ** 128 - 1):
+				return True
+	return False
+
 _C = {}
 _CALLEES = {}
 
@@ -82,6 +101,9 @@ def census(F):
 			if cf.startswith(('lightning', '<lightning')):
 				_CALLEES[F.dir].setdefault((fl, tail), set()).add(root_fn(cf).rsplit('::', 1)[-1])
 			c = classify(norm(ci.get('f') or '')) or (classify(norm(ci.get('t'))) if ci.get('t') else None)
+			if c and c[1] == 'checked' and c[0] == 'addsub' and _unwrapped_to_bound(fu, ci):
+				# `a.checked_sub(b).unwrap_or(0)` IS `a.saturating_sub(b)` (and `checked_add(..).unwrap_or(MAX)` is saturating_add): same flavour
+				c = (c[0], 'saturating')
 			if c:
 				k = (fl, tail, c[0], c[1]); tab[k] += 1; where.setdefault(k, (n, fu.line_of(b)))
 	_C[F.dir] = (tab, where, known)
